@@ -24,7 +24,7 @@ func ruleWPub(c *Ctx, r *Report) {
 	n := 0
 	for _, fn := range c.ModFuncs("") {
 		has := false
-		for _, b := range fn.Blocks {
+		for _, b := range theCtx.GB(fn) {
 			for _, ins := range b.Instrs {
 				if _, ok := storeToField(ins, fBW); ok {
 					has = true
@@ -213,7 +213,7 @@ func ruleReadInvokes(c *Ctx, r *Report, prefix string) {
 	}
 	seen := map[string]bool{}
 	for _, fn := range c.ModFuncs("", "lzma") {
-		for _, b := range fn.Blocks {
+		for _, b := range theCtx.GB(fn) {
 			for _, ins := range b.Instrs {
 				call, ok := ins.(*ssa.Call)
 				if !ok || !call.Call.IsInvoke() || call.Call.Method.Name() != "Read" {
@@ -311,7 +311,7 @@ func ruleEOSWriters(c *Ctx, r *Report, prefix string) {
 	var bad []string
 	n := 0
 	for _, fn := range c.ModFuncs("lzma") {
-		for _, b := range fn.Blocks {
+		for _, b := range theCtx.GB(fn) {
 			for _, ins := range b.Instrs {
 				if st, ok := storeToField(ins, f); ok {
 					n++
